@@ -10,7 +10,8 @@
              last dlen bytes of the source file (sfx)
      dlend   how the transfer ended (status), the number of headers received, count again
      upreq   the action the server opened the upload with
-     upitem  one streamed item (path, kind, size, cut) and the server's answer (act, resume offset off, ack)
+     upitem  one streamed item (path, kind, size, cut) and the server's answer (act, resume offset off, ack); the
+             client reads the server's bytes as a stream: an action that arrived early answers the next item
      upend   the snapshot of the target folder afterwards: [path, kind, size, partial, pfx]; pfx = the bytes are
              the first `size` bytes of the content belonging to the path
    Each step is applied to the model with the operators of Folder (the same ones MC_Folder checks) and the
@@ -134,7 +135,7 @@ TrUpItem(e) ==
           ELSE UNCHANGED <<skip, seen>>
 
 TrUpEnd(e) ==
-  IF e.status # "done" THEN Stop("DRIFT", e, "harness", "upload dialogue did not complete: " \o e.status, [ph |-> ph, left |-> left])
+  IF e.status \notin {"done", "expects-more"} THEN Stop("DRIFT", e, "harness", "upload dialogue did not complete: " \o e.status, [ph |-> ph, left |-> left])
   ELSE IF ~UpEndOK(e) THEN Stop("DRIFT", e, "script", "upload end not enabled", [ph |-> ph, left |-> left])
   ELSE LET resumed == out.op = "upitem" /\ out.act = 2      \* the last item was a resumed file
            obs == {NodeOf(r) : r \in ToSet(e.snap)}
@@ -159,6 +160,10 @@ TrUpEnd(e) ==
                 ELSE IF parO # parM \/ (badBytes \cap parO) # {}
                   THEN Note(IF out'.cut THEN "DRIFT" ELSE "VIOL", e, "UploadRecreates", "incomplete-files-differ",
                             [expected |-> parM, got |-> parO, wrongBytes |-> badBytes])
+                \* the tree is right, but the dialogue was not: the server still waits for items after the announced
+                \* count, or sent more than its answers (the statement speaks about the tree only)
+                ELSE IF e.status = "expects-more" \/ (~out'.cut /\ e.tail # 0)
+                  THEN Note("DRIFT", e, "protocol", "server expects more items or sent surplus bytes", [status |-> e.status, tail |-> e.tail])
                 ELSE seen' = seen
 
 StepEv ==
